@@ -52,14 +52,24 @@ def build_text(parent, layout, pind, iind, cind):
     return docenv.PRE + '\n'.join(lines) + '\n' + docenv.POST
 
 
+COMMENT_VALUES = ['newcomment', 'a\n\nb']
+
+
+def check_comment_lines(c, indent, what):
+    """Every line of a comment created from a plain value starts with the owner's indentation, then ';'."""
+    for line in c.raw_text.split('\n'):
+        check(line.startswith(indent + ';'), what, 'a line of the created comment is not indented like its owner', R(line), R(indent), R(c.raw_text))
+
+
 def leading_blanks(line):
     return line[:len(line) - len(line.lstrip(' \t'))]
 
 
 def make_indent(parent, layout, route, twin=False):
-    def cell(b0: int, b1: int, b2: int, nb: int, p0: int, p1: int, npi: int, i0: int, i1: int, c0: int) -> None:
-        assert 0 <= b0 <= 1 and 0 <= b1 <= 1 and 0 <= b2 <= 1 and 1 <= nb <= 3
+    def cell(b0: int, b1: int, b2: int, nb: int, p0: int, p1: int, npi: int, i0: int, i1: int, c0: int, touch: int = 0) -> None:
+        assert 0 <= b0 <= 1 and 0 <= b1 <= 1 and 0 <= b2 <= 1 and 1 <= nb <= 3 and 0 <= touch <= 1
         assert 0 <= p0 <= 1 and 0 <= p1 <= 1 and 1 <= npi <= 2 and 0 <= i0 <= 1 and 0 <= i1 <= 2 and 0 <= c0 <= 2
+        touch = pick(touch, 0, 1)
         nb = pick(nb, 1, 3)
         indent_by = ''.join(UNITS[pick(b, 0, 1)] for b in (b0, b1, b2)[:nb])
         has_p = '{P}' in PARENTS[parent][0]
@@ -81,6 +91,8 @@ def make_indent(parent, layout, route, twin=False):
             m = PARENTS[parent][1](f)
             if layout.startswith('comment') and not any(isinstance(x, M.BlockComment) for x in m.raw_meta_with_comments):
                 return   # the comment was attributed elsewhere (leading/trailing of a neighbour): not this cell's layout
+            if touch:      # the views are read (and cached on the model) BEFORE the indentation unit is changed
+                len(m.meta), ('zz' in m.meta), list(m.raw_meta), list(m.raw_meta_with_comments)
             m.indent_by = indent_by
             own = m.indent if hasattr(m, 'indent') and PARENTS[parent][2] else ''
             items = [x for x in m.raw_meta_with_comments if isinstance(x, M.MetaItem)]
@@ -110,24 +122,32 @@ def make_indent(parent, layout, route, twin=False):
             elif route in ('leading_comment', 'trailing_comment'):
                 if not PARENTS[parent][2]:
                     return      # only indented models (postings, meta items) create indented comments
-                setattr(m, route, 'newcomment')
+                setattr(m, route, COMMENT_VALUES[touch])
                 c = getattr(m, 'raw_' + route)
                 check(c.indent == own, what, route, 'indent', R(c.indent), 'expected the posting indent', R(own))
-                new_line_marker = '; newcomment'
+                check_comment_lines(c, own, what)
+                new_line_marker = c
             else:
                 if not items:
                     return
                 r = route[len('item_'):]
-                setattr(items[-1], r, 'newcomment')
+                setattr(items[-1], r, COMMENT_VALUES[touch])
                 c = getattr(items[-1], 'raw_' + r)
                 check(c.indent == items[-1].indent, what, route, 'indent', R(c.indent), 'expected the item indent', R(items[-1].indent))
-                new_line_marker = '; newcomment'
+                check_comment_lines(c, items[-1].indent, what)
+                new_line_marker = c
             if twin:
                 raise Fail('twin reached the assertion point')
             after_text = text_of(f)
             after_lines = after_text.split('\n')
             # no pre-existing line changes its indentation (lines are matched by their content without the new one)
-            kept = [l for l in after_lines if not (new_line_marker and new_line_marker in l)]
+            if isinstance(new_line_marker, M.BlockComment):     # the lines of the new comment, as one contiguous run
+                cl = new_line_marker.raw_text.split('\n')
+                at = next((k for k in range(len(after_lines) - len(cl) + 1) if after_lines[k:k + len(cl)] == cl), None)
+                check(at is not None, what, 'the lines of the new comment are not in the document', R(after_text))
+                kept = after_lines[:at] + after_lines[at + len(cl):]
+            else:
+                kept = [l for l in after_lines if not (new_line_marker and new_line_marker in l)]
             if route == 'map_existing':
                 kept = [l if 'ka:' not in l else before_lines[[i for i, b in enumerate(before_lines) if 'ka:' in b][0]] for l in kept]
             check([leading_blanks(l) for l in kept] == [leading_blanks(l) for l in before_lines], what, 'indentation of an existing line changed', R(after_text))
